@@ -1,4 +1,5 @@
 import Proofs.Ledger.Bank
+import Proofs.Ledger.Genesis
 /-!
 # C17 — Total supply always equals the sum of all balances
 
@@ -52,6 +53,35 @@ theorem primitives_move_sigma (b : Bank) (a : Addr) (x : Int) :
     ((subtractCoins b a x).err = none → (subtractCoins b a x).st.accts.total = b.accts.total - x ∧ (subtractCoins b a x).st.supply = b.supply) :=
   ⟨fun h => ⟨addCoins_total b a x h, addCoins_supply b a x⟩, fun h => ⟨subtractCoins_total b a x h, subtractCoins_supply b a x⟩⟩
 
+/-- The genesis hypothesis is established by the module genesis code itself: non-negative genesis
+accounts, a genesis supply that is empty (then computed) or equals their sum, no genesis account at
+a module address ⇒ after auth, nodes, apps and gov `InitGenesis`, `supply = Σ balances`. -/
+theorem genesis_supply_inv (mt : ModTable) (accts : Accounts) (supply : Option Int) (nodePool appPool : String)
+    (stakedNodes stakedApps daoTokens : Int)
+    (hn : ∀ p ∈ accts, 0 ≤ p.2.bal) (hs : supply = none ∨ supply = some accts.total)
+    (hsn : 0 ≤ stakedNodes) (hsa : 0 ≤ stakedApps)
+    (hfree : ∀ m mi, mt.find m = some mi → accts.get mi.addr = none)
+    (hdist : ∀ m1 m2, mt.find nodePool = some m1 → mt.find appPool = some m2 → m1.addr ≠ m2.addr) :
+    SupplyInv (genesis mt accts supply nodePool appPool stakedNodes stakedApps daoTokens) ∧
+    NonNeg (genesis mt accts supply nodePool appPool stakedNodes stakedApps daoTokens) :=
+  genesis_good mt accts supply nodePool appPool stakedNodes stakedApps daoTokens hn hs hsn hsa hfree hdist
+
+/-- Every history from such a genesis. -/
+theorem supply_inv_from_genesis (mt : ModTable) (accts : Accounts) (supply : Option Int) (nodePool appPool : String)
+    (stakedNodes stakedApps daoTokens : Int) (ops : List Op)
+    (hn : ∀ p ∈ accts, 0 ≤ p.2.bal) (hs : supply = none ∨ supply = some accts.total)
+    (hsn : 0 ≤ stakedNodes) (hsa : 0 ≤ stakedApps)
+    (hfree : ∀ m mi, mt.find m = some mi → accts.get mi.addr = none)
+    (hdist : ∀ m1 m2, mt.find nodePool = some m1 → mt.find appPool = some m2 → m1.addr ≠ m2.addr) :
+    SupplyInv (run mt (genesis mt accts supply nodePool appPool stakedNodes stakedApps daoTokens) ops) :=
+  (run_good mt _ ops (genesis_good mt accts supply nodePool appPool stakedNodes stakedApps daoTokens hn hs hsn hsa hfree hdist)).1
+
+/-- A genesis document that already carries a pool's coins would be counted twice by the pool
+genesis code (the full statement without `hfree` is false of the model). -/
+theorem genesis_provided_pool_fails :
+    ∃ (mt : ModTable) (b : Bank), (SupplyInv b ∧ NonNeg b) ∧ ¬ SupplyInv (genesisFundPool mt b "pool" 5) :=
+  genesis_provided_pool_double_counts
+
 /-! ## Non-vacuity -/
 
 private def mt : ModTable := [⟨"dao", [0xda], true, true⟩, ⟨"pool", [0x90], true, true⟩, ⟨"ro", [0x70], false, false⟩]
@@ -63,5 +93,7 @@ private def ops : List Op :=
 example : SupplyInv b0 ∧ nonNegB b0 = true := by decide
 example : (run mt b0 ops).supply = 142 ∧ netMintBurn mt b0 ops = 7 - 20 ∧ SupplyInv (run mt b0 ops) := by decide
 example : ¬ SupplyInv (addCoins b0 [1] 1).st := by decide
+example : (genesis mt [([1], ⟨100, none⟩), ([2], ⟨5, none⟩)] none "pool" "dao" 30 0 50).supply = 185 ∧
+    SupplyInv (genesis mt [([1], ⟨100, none⟩), ([2], ⟨5, none⟩)] none "pool" "dao" 30 0 50) := by decide
 
 end C17
